@@ -158,6 +158,12 @@ func buildReplies(toks []string) (msgs [][]byte, nonces [][]byte, capMask []byte
 						b = []byte("not a key")
 					case v == "kt":
 						b = append(append([]byte{}, pemKey...), "trailing"...)
+					case v == "kw": // nothing but white space
+						b = []byte(" \n\t\r\n")
+					case v == "kn": // a key followed by blank lines
+						b = append(append([]byte{}, pemKey...), "\n\n"...)
+					case v == "kh": // the first half of a key
+						b = append([]byte{}, pemKey[:len(pemKey)/2]...)
 					case v == "e":
 						b = nil
 					case strings.HasPrefix(v, "n"):
@@ -475,7 +481,7 @@ func loginImpl(line string) string {
 }
 
 var loginEdits = []string{"la:5", "la:6", "la:7", "dn:0", "dn:2", "dn:1", "dn:16", "msg:35", "msg:31", "msg:1", "pf:ill", "pf:il", "pf:illl", "pf:lli", "pf:ivl", "pf:ibl", "pf:ilb", "pf:ibb",
-	"pm:i1,k,n16", "pm:i2,k,n16", "pm:i1,kb,n16", "pm:i1,kt,n16", "pm:i1,k,n0", "pm:i1,e,n16", "pm:i1,k,n60", "cap:ok", "cap:zero", "cap:noreq", "cap:nores", "cap:empty", "eed", "ot", "|"}
+	"pm:i1,k,n16", "pm:i2,k,n16", "pm:i1,kb,n16", "pm:i1,kt,n16", "pm:i1,kw,n16", "pm:i1,kn,n16", "pm:i1,kh,n16", "pm:i1,k,n0", "pm:i1,e,n16", "pm:i1,k,n60", "cap:ok", "cap:zero", "cap:noreq", "cap:nores", "cap:empty", "eed", "ot", "|"}
 
 func pmFor(pf string, rng *mrand.Rand) string {
 	var vals []string
@@ -527,7 +533,7 @@ func fixScript(toks []string, rng *mrand.Rand) []string {
 					case 'i':
 						okv = okv && strings.HasPrefix(v, "i")
 					case 'l':
-						okv = okv && (v == "k" || v == "kb" || v == "kt" || v == "e" || strings.HasPrefix(v, "n"))
+						okv = okv && (v == "k" || v == "kb" || v == "kt" || v == "kw" || v == "kn" || v == "kh" || v == "e" || strings.HasPrefix(v, "n"))
 					case 'v':
 						okv = okv && v == "v"
 					case 'b':
